@@ -426,6 +426,15 @@ def judge (d : DState) : Verdict × DState :=
           let v := v.check "C06" "C06_carriedOver_converted"
             ((carriedKeys s).all fun k => match s'.bids.get? k with | some (.v3 _) => true | _ => false)
           let v := v.check "C14" "unknownKeys" (!hasUnknown p.deltas)
+          -- a migration moves no funds, so what the book owes (old-format bids counted by the fold
+          -- over their event log) must be the same before and after, in every denomination
+          let bidDenom : String × BidEntry → String := fun kv =>
+            match kv.2 with | .v3 b => b.quote.denom | .v2 b => b.quote.denom
+          let ds : List String :=
+            ([s.info.baseDenom] ++ s.info.quotes ++ s.info.convertible ++ s.bids.map bidDenom).eraseDups
+          let v := ds.foldl (fun (v : Verdict) (d : String) =>
+            v.check "C01" "C01_migrate_owed" (owedAny s' d == owedAny s d)) v
+          let v := v.check "C01" "C01_migrate_nomsgs" implResp.msgs.isEmpty
           if d.lastMig == some m then v.check "C14" "C14_idempotent" (stateEq s s') else v
         else v.check "C14" "C14_gate" true
       let v := if !implOk && !p.deltas.isEmpty then v.check "C14" "refused_changes_nothing" false else v
